@@ -29,9 +29,13 @@ class _Grab(logging.Handler):
             self.hits.append(msg[:160])
 
 
+class Watchdog(BaseException):
+    """not an Exception: nothing in the library may swallow it"""
+
+
 def _watchdog(seconds, what):
     def bail(*_a):
-        raise TimeoutError(f"watchdog: {what} still running after {seconds} s wall")
+        raise Watchdog(f"watchdog: {what} still running after {seconds} s wall")
     signal.signal(signal.SIGALRM, bail)
     signal.alarm(seconds)
 
@@ -70,11 +74,13 @@ def tcp(n, seed):
         sim.schedule(Event(time=Instant.from_seconds(1.0), event_type="go", target=drv))
         cfg = {"cc": type(cc).__name__, "loss": loss, "size": size, "cwnd": cwnd, "base_rtt": rtt, "rto": rto, "case": i}
         grab.hits.clear()
+        if len(bad) >= 2:
+            break
         try:
-            _watchdog(20, "tcp send")
+            _watchdog(8, "tcp send")
             sim.run()
             signal.alarm(0)
-        except TimeoutError as exc:
+        except Watchdog as exc:
             bad.append(dict(cfg, problem=str(exc), clock=str(sim._clock.now)))
             continue
         finally:
@@ -125,7 +131,7 @@ def profile(n, seed):
         try:
             _watchdog(15, "profile source")
             sim.run()
-        except TimeoutError as exc:
+        except Watchdog as exc:
             # the numerical integration of the profile path can take seconds of WALL time per arrival (not a C07
             # matter); a frozen simulated clock shows as ticks piling up on one instant
             if len(set(sink.times)) < 2 and len(sink.times) > CAP:
